@@ -14,9 +14,9 @@ FAMILY = ["C01", "C02", "C03", "C04", "C06", "C07", "C08", "C17"]
 MODEL_CFG = {
     # C01 also: the end of life of a log (Sunset.tla): nothing is committed after the final tree head is
     # recorded; "final tree head = served checkpoint" is refuted (observation O-1 of DESIGN.md 9.7)
-    "C01": {"quick": [("MC_q_single.cfg", "ok"), ("MC_sunset.cfg", "ok", "Sunset.tla"),
+    "C01": {"quick": [("MC_q_single.cfg", "ok"), ("MC_sunset.cfg", "ok", "Sunset.tla"), ("MC_sunset_live.cfg", "ok", "Sunset.tla"),
                       ("MC_sunset_pub.cfg", "FinalIsPublished", "Sunset.tla")],
-            "thorough": [("MC_single.cfg", "ok"), ("MC_sunset.cfg", "ok", "Sunset.tla"),
+            "thorough": [("MC_single.cfg", "ok"), ("MC_sunset.cfg", "ok", "Sunset.tla"), ("MC_sunset_live.cfg", "ok", "Sunset.tla"),
                          ("MC_sunset_pub.cfg", "FinalIsPublished", "Sunset.tla")]},
     "C02": {"quick": [("MC_q_single.cfg", "ok")], "thorough": [("MC_single.cfg", "ok")]},
     "C03": {"quick": [("MC_q_single.cfg", "ok")], "thorough": [("MC_single.cfg", "ok")]},
